@@ -878,7 +878,44 @@ func ruleWait(c *Ctx) []Obligation {
 		return true
 	})
 	// recvNonNil: e evaluating to v guarantees that the received interrupt is non-nil
-	recvNonNil := func(e ast.Expr, v bool) bool {
+	var recvNonNil func(e ast.Expr, v bool) bool
+	recvNonNil = func(e ast.Expr, v bool) bool {
+		e = ast.Unparen(e)
+		switch x := e.(type) {
+		case *ast.UnaryExpr:
+			if x.Op == token.NOT {
+				return recvNonNil(x.X, !v)
+			}
+		case *ast.Ident:
+			// a bool local defined once (`finished := i == nil`)
+			if obj := moObj(info, x); obj != nil && !recvVars[obj] {
+				if def := wtSoleDef(info, w.wait, obj); def != nil {
+					return recvNonNil(def, v)
+				}
+			}
+			return false
+		case *ast.CallExpr:
+			// a one-line predicate of the module applied to the received value
+			if len(x.Args) == 1 {
+				if id, ok := ast.Unparen(x.Args[0]).(*ast.Ident); ok && recvVars[moObj(info, id)] {
+					if r, ri, rfd := wtSingleReturn(c, info, x); r != nil && rfd != nil && rfd.Type.Params != nil && len(rfd.Type.Params.List) == 1 && len(rfd.Type.Params.List[0].Names) == 1 {
+						pobj := ri.Defs[rfd.Type.Params.List[0].Names[0]]
+						if rb, ok := ast.Unparen(r).(*ast.BinaryExpr); ok && (rb.Op == token.EQL || rb.Op == token.NEQ) {
+							var o ast.Expr
+							if moIsNil(ri, rb.Y) {
+								o = rb.X
+							} else if moIsNil(ri, rb.X) {
+								o = rb.Y
+							}
+							if oid, ok := ast.Unparen(o).(*ast.Ident); ok && o != nil && moObj(ri, oid) == pobj {
+								return (rb.Op == token.NEQ) == v
+							}
+						}
+					}
+				}
+			}
+			return false
+		}
 		be, ok := e.(*ast.BinaryExpr)
 		if !ok || (be.Op != token.EQL && be.Op != token.NEQ) {
 			return false
@@ -1130,5 +1167,7 @@ func ruleWait(c *Ctx) []Obligation {
 	obs = append(obs, r4aRegistrations(c)...)
 	// only the coordinator calls the VM-wide cancel function (rules_r5rt.go)
 	obs = append(obs, r5rtCancelCallers(c)...)
+	// handles shared by reference are stored as given (rules_r6rt.go)
+	obs = append(obs, r6rtSharedHandles(c)...)
 	return obs
 }
